@@ -796,6 +796,11 @@ def run(ctx):
         extra={
             "plan": [{"init": {k: v for k, v in i.items() if k != "seed"}, "depth": d} for i, d in plan],
             "depth_max": max(d for _i, d in plan),
+            # every history up to the stated depth was executed (bounded-exhaustive), but the reachable
+            # state space is not closed at that depth: new canonical states still appear at the last level
+            "exhaustive": False,
+            "exhaustive_within_bounds": True,
+            "closure": False,
         },
     )
     ctx.assumptions += [
